@@ -46,9 +46,15 @@ FS_EPOCH = "VERIF_FS_EPOCH"      # bumped by the harness with every file-system 
 TOOLFILES = ["@D1@/tool", "@D2@/tool"]      # the programs that fs operations remove / restore / chmod
 WORDS = ["a", "-n", "x y", "", "lit", "b", "--flag=1", "$V", "${V}", "${V}x", "$V$W", "pre$V", "$V/$W", "$W", "$X",
          "${Y}", "$Z", "$V", "$W.txt", "k=$X"]
+# control and blank characters, leading / trailing / embedded; non-ASCII text; a byte-order mark
+CTRL_WORDS = ["a\r", "\r", "a\r\n", "a\n", "\n", "\ta", "a\t", " a", "a ", " ", "a\rb", "a\nb", "\ufeffbom", "\u00e9t\u00e9", "\u65e5\u672c", "x\r", "$V\r", "lit\r\n",
+              "\x0b", "a\x1b[0m", "\x7f"]
+# the well-known variables of a build environment are part of a history's state: each inherited / unset / empty / "/"
+ENVVARS = ["HOME", "TMPDIR", "USER", "SHELL", "LANG", "LC_ALL", "TERM", "PWD"]
+ENV_WORDS = ["$HOME", "${HOME}/x", "$TMPDIR/f", "$USER", "$PWD", "$LANG", "$HOME/.cache", "$SHELL", "$TERM-$LC_ALL"]
 SHELL_WORDS = ["*", "*.txt", "?", "v?", "[a-z]*", "[ab].txt", "{a,b}", "{a,b}.txt", "~", "~/x", "`echo hi`", "$(echo hi)", ";", "a;b", "|", ">", "> out",
                "&", "&&", "'q'", '"dq"', "a\\b", "\\", "-rf", "--", "k=v", "=", "*$V", "$V*", "?$W", "\\$V", "#", "!", "a b*", "*/*", "./*"]
-WORDS = WORDS + SHELL_WORDS[::2]          # half of them in the general alphabet, all of them in dedicated arrays
+WORDS = WORDS + SHELL_WORDS[::2] + CTRL_WORDS[::3] + ENV_WORDS[::2]         # some of each in the general alphabet, all of them in dedicated arrays
 # plain files of the working directories: names such patterns would match, names like the words themselves
 STD_FILES = ["a.txt", "b.txt", "v1", "-rf", "k=v", "[a-z]x", "x y", "{a,b}"]
 EXTRA_FILES = ["c.txt", "v2", "*", "*.txt", "~", "lit", "out", "a;b"]
@@ -123,7 +129,7 @@ def gen_arrays(rng, scripts=False):
         # lengths 0..41: short lists mostly, a quarter beyond any plausible cut-off (15..18, 31..34, 40, 41)
         n = rng.choice([0, 1, 2, 2, 3, 3, 4, 5, 6, 6, 9, 12]) if rng.random() < 0.75 else rng.choice([15, 16, 17, 17, 18, 20, 24, 31, 32, 33, 34, 40, 41])
         r0 = rng.random()
-        words = PLAIN if r0 < 0.35 else (SHELL_WORDS if r0 < 0.5 else WORDS)      # arrays without any $ reference are frequent
+        words = PLAIN if r0 < 0.3 else (SHELL_WORDS if r0 < 0.42 else (CTRL_WORDS + ["lit", "a"] if r0 < 0.56 else (ENV_WORDS + ["a", "$V"] if r0 < 0.66 else WORDS)))
         # how often a cell scripts the child: failing calls must be as frequent as succeeding ones, for every length
         dens = rng.choice([0.0, 0.15, 0.3]) if n <= 12 else rng.choice([0.0, 0.03, 0.06, 0.1])
         arrays.append([rng.choice(SCRIPTS) if scripts and rng.random() < dens else rng.choice(words) for _ in range(n)])
@@ -132,8 +138,18 @@ def gen_arrays(rng, scripts=False):
     return arrays
 
 
+def envvar_value(rng, k):
+    """a well-known variable: as inherited by this process, unset (None), empty, "/" or some other plausible value"""
+    return rng.choice([os.environ.get(k), None, None, "", "/", {"HOME": "/home/u", "TMPDIR": "/var/tmp", "USER": "u", "SHELL": "/bin/sh",
+                                                                 "LANG": "C", "LC_ALL": "C.UTF-8", "TERM": "dumb", "PWD": "/work"}[k]])
+
+
 def gen_env(rng, cmdvars=True):
     env = {v: rng.choice(VALUES) for v in VARS if rng.random() < 0.75}
+    for k in ENVVARS:
+        v = envvar_value(rng, k)
+        if v is not None:
+            env[k] = v
     if cmdvars:
         for k, vals in CMD_VARS.items():
             env[k] = rng.choice(vals)
@@ -261,8 +277,12 @@ def gen_history(rng):
         if mk and r < 0.25:
             ops.append(mk.pop())
             made += 1
-        elif r < 0.09:
+        elif r < 0.05:
             ops.append({"op": "setenv", "k": VERBOSE, "v": rng.choice(VERBOSE_VALUES)})
+        elif r < 0.10:
+            k = rng.choice(ENVVARS + ["HOME", "HOME"])
+            v = envvar_value(rng, k)
+            ops.append({"op": "setenv", "k": k, "v": "", "unset": True} if v is None else {"op": "setenv", "k": k, "v": v})
         elif r < 0.19:
             ops.append({"op": "setenv", "k": rng.choice(VARS), "v": rng.choice(VALUES)})
         elif r < 0.30:
@@ -281,6 +301,8 @@ def gen_history(rng):
             emap = None
             if fn in USES_MAP or rng.random() < 0.3:
                 emap = None if rng.random() < 0.2 else {v: rng.choice(VALUES) for v in VARS + [UNSET] if rng.random() < 0.35}
+                if emap is not None and rng.random() < 0.3:          # caller maps that do mention the well-known variables
+                    emap[rng.choice(ENVVARS)] = rng.choice(["/map", "", "/"])
             args = dict(NILS) if rng.random() < 0.1 else gen_slice(rng, arrays, prefer_long=True)
             d = {"op": "direct", "fn": fn, "emap": emap, "cmd": rng.choice(CMDS), "args": args}
             if fn in USES_MAP and rng.random() < 0.3:
@@ -499,7 +521,7 @@ def prepare(case, child, dirs):
 
 def request(case, outfile, gate):
     raw = {"outfile": outfile, "gate": gate,
-           "clear": VARS + [UNSET, VERBOSE, "CHILD", "CHILDDIR", "PATH", "TOOLDIR", "TOOL", "WHOLE"], "env": case["env"],
+           "clear": VARS + [UNSET, VERBOSE, "CHILD", "CHILDDIR", "PATH", "TOOLDIR", "TOOL", "WHOLE"] + ENVVARS, "env": case["env"],
            "arrays": case["arrays"], "closures": case["closures"], "ops": case["ops"]}
     return {"op": "shslice", "raw": raw}
 
@@ -836,6 +858,7 @@ def t_op(o):
     if o["op"] == "mk":
         return "(MkClosure %s %s %s)" % ("KOut" if o["kind"] == "out" else "KRun", coq_str(o["cmd"]), t_slice(o["baked"]))
     if o["op"] == "setenv":
+        # os.Unsetenv is SetEnv k "" for the model: os.Getenv - all that package sh reads - cannot tell them apart
         return "(SetEnv %s %s)" % (coq_str(o["k"]), coq_str(o["v"]))
     if o["op"] == "fs":
         return "(SetEnv %s %s)" % (coq_str(FS_EPOCH), coq_str(o["epoch"]))
